@@ -146,6 +146,40 @@ class UuidSource(object):
         return _Uuid(self.n)
 
 
+_REAL_KILL = os.kill
+_REAL_KILLPG = os.killpg
+_KILL_KERNEL = [None]
+
+
+def _guard_real_kill(kernel):
+    _KILL_KERNEL[0] = kernel
+    if os.kill is _guarded_kill:
+        return
+    os.kill = _guarded_kill
+    os.killpg = _guarded_killpg
+
+
+def _from_code_under_test():
+    f = sys._getframe(2)
+    fn = f.f_code.co_filename
+    return fn.startswith(_REPO_REAL) or fn.startswith(REPO)
+
+
+def _guarded_kill(pid, sig):
+    if _KILL_KERNEL[0] is not None and simmod.current() is not None and \
+            _from_code_under_test():
+        return _KILL_KERNEL[0].kill(pid, sig)
+    return _REAL_KILL(pid, sig)
+
+
+def _guarded_killpg(pgid, sig):
+    if _KILL_KERNEL[0] is not None and simmod.current() is not None and \
+            _from_code_under_test():
+        raise RuntimeError('os.killpg(%r, %r) from the code under test'
+                           % (pgid, sig))
+    return _REAL_KILLPG(pgid, sig)
+
+
 class TrackDict(dict):
     """Watcher.processes with a log of who removed which pid (attribution
     of findings only; behaviour identical to dict)."""
@@ -359,9 +393,17 @@ class World(object):
         asyncio.set_event_loop(self.loop)
         k = self.kernel
         circus.process.Popen = make_popen(k)
-        circus.process.os = ModProxy(os, waitid=k.waitid)
-        osp = ModProxy(os, waitpid=k.waitpid, kill=k.kill,
+        def _no_killpg(*a):
+            raise RuntimeError('os.killpg from the code under test: %r' % (a,))
+        circus.process.os = ModProxy(os, waitid=k.waitid, kill=k.kill,
+                                     waitpid=k.waitpid, killpg=_no_killpg,
+                                     getpid=lambda: k.getpid_value)
+        osp = ModProxy(os, waitpid=k.waitpid, kill=k.kill, killpg=_no_killpg,
                        getpid=lambda: k.getpid_value)
+        # whatever other module of the code under test calls os.kill (a
+        # change to it may): simulated pids are numbers of real processes
+        # of this machine - never let a signal out
+        _guard_real_kill(k)
         self.osproxy = osp
         circus.watcher.os = osp
         circus.arbiter.os = osp
